@@ -86,6 +86,10 @@ ALPHA = ["a", "b", "_", "B", "0", ":", "é", "𝄞", " "]
 
 
 def gen_name(r):
+    if r.random() < 0.35:
+        # module paths: nested modules, a test directly in a module that others are nested under, shared prefixes
+        mods = r.choice([["tests"], ["tests", "sub"], ["tests", "sub", "deep"], ["a"], ["a", "b"], []])
+        return "::".join(mods + [r.choice(["alpha", "case", "deep_case", "t", "a", "sub", "é"])])
     return "".join(r.choice(ALPHA) for _ in range(r.randint(1, 4)))
 
 
@@ -318,6 +322,11 @@ def run(tier, seed):
         m = r.choice([1, n, r.randint(1, min(n, 12))])
         names = [gen_name(r) for _ in range(r.randint(0, 12))]
         seqs.append(dict(op="seq", kind=r.choice(["count", "hash"]), m=m, n=n, names=names))
+    mod_names = ["alpha", "tests::alpha", "tests::sub::deep_case", "tests::sub::x::y", "tests::t", "tests::sub::deep_case2",
+                 "zeta::a", "zeta", "zeta::a::b"]
+    for n in (2, 3, 16):
+        for names in (mod_names, sorted(mod_names), mod_names[1:], [mod_names[2]], sorted(mod_names)[::2]):
+            seqs.append(dict(op="seq", kind="hash", m=1, n=n, names=list(names)))
     impl = vlib.run_impl(binary, "partition", seqs)
     model = vlib.coq_eval("c13s", IMPORTS, [
         f"seq_run (mkpb {'PCount' if c['kind'] == 'count' else 'PHash'} {c['m']} {c['n']}) 0 "
